@@ -48,5 +48,7 @@ func init() {
 			return "p?"
 		}, Less: func(a, b *int) bool { return *a < *b }}, 40000, 600000),
 	}
+	p.Engines = append(p.Engines, &core.Engine{Name: "catalog/large", Count: core.FixedCount(250, 4000), CPULimit: 120,
+		Run: func(c *core.Ctx, idx int) { seq.RunC03Large(c, true) }})
 	core.Register(p)
 }
